@@ -307,6 +307,9 @@ class Tx:
                 c = c_or(*alts) if alts else False
                 return c if isinstance(node.ops[0], ast.In) else c_not(c)
             for op, right_n in zip(node.ops, node.comparators):
+                if isinstance(op, (ast.In, ast.NotIn)) and isinstance(right_n, ast.Call) and isinstance(right_n.func, ast.Attribute) \
+                        and right_n.func.attr == "keys" and not right_n.args and not right_n.keywords:
+                    right_n = right_n.func.value  # `k in d.keys()` is `k in d`
                 right = self.expr(right_n)
                 parts.append(self._cmp(type(op), left, right))
                 left = right
